@@ -9,5 +9,7 @@ import (
 
 func main() {
 	name, desc := "gts", "the genome transformation subprograms command line tool"
-	os.Exit(flags.Run(name, desc, gts.Version, flags.Compile()))
+	status := flags.Run(name, desc, gts.Version, flags.Compile())
+	closeCaches(status == 0)
+	os.Exit(status)
 }
